@@ -1416,5 +1416,5 @@ BUILTIN_NAMES = {'len', 'isinstance', 'str', 'list', 'set', 'dict', 'tuple', 're
                  'is_tuple', 'is_list', 'is_float', 'is_bool', 'is_obj', 'is_inst', 'in_re',
                  'set_of_seq', 'set_add', 'set_union', 'set_where', 'subset', 'dict_has', 'dict_get', 'dict_keys', 'dict_values_str',
                  'mk', 'noop', 'norm_has', 'norm_get', 'reif_has', 'reif_get', 'dereif_has', 'dereif_get',
-                 'top_role', 'aln_marker', 'aln_ok', 'str_of', 'json_dumps', 'keyof', 'key_le', 'seq_eq',
+                 'top_role', 'aln_marker', 'aln_ok', 'str_of', 'json_dumps', 'json_container', 'keyof', 'key_le', 'seq_eq',
                  'is_atomic', 'last_index', 'fld', 'is_sorted_by', 'perm_of', 'multiset_eq'}
